@@ -235,9 +235,9 @@ def concrete(case):
                 else:
                     if CC.outcome_of(C.checkformat_gpg_signature, ent)['kind'] != 'ret':
                         probs.append('stored entry fails checkformat_gpg_signature')
-                    if seen.get('data') != C.canonserialize(signed):
+                    if seen.get('data') != CC.ref_canon(signed):
                         probs.append('GnuPG was not asked to sign the canonical bytes of the signed part')
-                    digest = CC.gpg_digest(C.canonserialize(signed), bytes.fromhex(case['oh']))
+                    digest = CC.gpg_digest(CC.ref_canon(signed), bytes.fromhex(case['oh']))
                     CC.CRYPTO.table[(bytes.fromhex(case['q']), bytes.fromhex(case['sig']), digest)] = True
                     v = CC.outcome_of(A.verify_signable, signable, [case['q']], 1, gpg=True)
                     if v['kind'] != 'ret':
